@@ -52,6 +52,9 @@ const cfgCustomTemplate = "#!/bin/sh\n# custom template, key {{.PubkeyFP}}\nU='h
 var (
 	cfgInRe  = regexp.MustCompile(`/i/([0-9A-Za-z_-]+)`)
 	cfgOutRe = regexp.MustCompile(`/o/([0-9A-Za-z_-]+)`)
+	// cfgFPRe: a SHA-256 fingerprint in base64, which may itself hold "/i/" or
+	// "/o/"; it is blanked before the script is searched for its ID.
+	cfgFPRe = regexp.MustCompile(`[A-Za-z0-9+/]{43}=`)
 )
 
 // cfgUnit is one server life: a configuration, the variant of each of its
@@ -535,7 +538,8 @@ func cfgTrial(r *mon.Run, s *hk.Server, u cfgUnit, t int) (violated bool) {
 			if err != nil || res.Status != 200 {
 				return
 			}
-			mi, mo := cfgInRe.FindSubmatch(res.Body), cfgOutRe.FindSubmatch(res.Body)
+			scan := cfgFPRe.ReplaceAll(res.Body, []byte("FP"))
+			mi, mo := cfgInRe.FindSubmatch(scan), cfgOutRe.FindSubmatch(scan)
 			if mi == nil || mo == nil || string(mi[1]) != string(mo[1]) {
 				return
 			}
